@@ -10,7 +10,7 @@ use std::sync::Arc;
 
 type Body = Arc<dyn Fn() -> String + Send + Sync>;
 
-pub const INPUTS: [(&str, &str, u8); 12] = [
+pub const INPUTS: [(&str, &str, u8); 14] = [
     ("T1 parse: open 1364-2001 region using logic/do as identifiers", "`begin_keywords \"1364-2001\"\nmodule a; reg logic; wire do; endmodule\n`end_keywords\nmodule a2; logic l; endmodule\n", 0),
     ("T2 parse: logic as net name (must fail)", "module b; wire logic; endmodule\n", 0),
     ("T3 preprocess: function-like macros and conditionals", "`define F(x, y) x + y\n`ifdef A\n`F(1, 2)\n`else\n`F(3, (4, 5)) /* c */\n`endif\n`define G `F(a, b)\n`G\n", 1),
@@ -22,6 +22,8 @@ pub const INPUTS: [(&str, &str, u8); 12] = [
     ("T9 parse: SystemVerilog keywords first, then a 1364-2001 region that is never closed", "module d; logic l; always_comb l = 1; endmodule\n`begin_keywords \"1364-2001\"\nmodule d2; reg logic; endmodule\n", 0),
     ("T11 parse with allow_incomplete: a comment header, one good and one broken description", "// header\n/* c */\nmodule e; endmodule\nmodule f; wire ; endmodule\n", 6),
     ("T12 parse_lib with allow_incomplete: a broken second declaration", "// header\nlibrary l a.v;\nlibrary ;\n", 7),
+    ("T13 preprocess: a macro used three times", "`define WIDTH 4\na `WIDTH b `WIDTH c `WIDTH\n", 1),
+    ("T14 preprocess: the same macro name at the same place of the same file label, another text", "`define WIDTH 8\nx `WIDTH y `WIDTH z `WIDTH\n", 1),
     ("T10 preprocess_str, then parse_sv_pp of its output (two calls): same text as T9", "module d; logic l; always_comb l = 1; endmodule\n`begin_keywords \"1364-2001\"\nmodule d2; reg logic; endmodule\n", 5),
 ];
 
@@ -168,7 +170,7 @@ pub fn build(tier: Tier) -> Check<'static> {
     let solo: Arc<Vec<String>> = Arc::new((0..INPUTS.len()).map(|k| std::thread::spawn(move || body(k)()).join().unwrap()).collect());
     let mut combos: Vec<Combo> = vec![];
     let q = tier == Tier::Quick;
-    for pair in [[0usize, 1], [1, 0], [0, 2], [2, 0], [1, 2], [0, 3], [0, 4], [2, 5], [5, 0], [6, 7], [7, 6], [6, 2], [8, 1], [1, 8], [8, 2], [2, 8], [11, 1], [1, 11], [8, 8], [9, 1], [1, 9], [9, 4], [10, 4], [4, 10], [9, 10]] {
+    for pair in [[0usize, 1], [1, 0], [0, 2], [2, 0], [1, 2], [0, 3], [0, 4], [2, 5], [5, 0], [6, 7], [7, 6], [6, 2], [8, 1], [1, 8], [8, 2], [2, 8], [13, 1], [1, 13], [8, 8], [11, 12], [12, 11], [9, 1], [1, 9], [9, 4], [10, 4], [4, 10], [9, 10]] {
         combos.push(Combo { threads: pair.to_vec(), bound: 1, filter: f_fine, filter_name: "all hooks except memo", max: 50_000 });
     }
     combos.push(Combo { threads: vec![0, 1], bound: 1, filter: f_all, filter_name: "all hooks incl. memo get/insert", max: 50_000 });
